@@ -428,6 +428,13 @@ class _Canonical(ast.NodeTransformer):
             if len(parts) == 1:
                 return ast.copy_location(parts[0], node)
             return ast.copy_location(ast.BoolOp(op=ast.And() if isinstance(node.ops[0], ast.Eq) else ast.Or(), values=parts), node)
+        # a comparison of numeric literals only (left by a default put in place of its parameter): its value
+        if all(isinstance(x, ast.Constant) and isinstance(x.value, (int, float)) and not isinstance(x.value, bool) for x in [node.left] + node.comparators) \
+                and all(isinstance(o, (ast.Eq, ast.NotEq, ast.Lt, ast.LtE, ast.Gt, ast.GtE)) for o in node.ops):
+            import operator as _op
+            fn_ = {ast.Eq: _op.eq, ast.NotEq: _op.ne, ast.Lt: _op.lt, ast.LtE: _op.le, ast.Gt: _op.gt, ast.GtE: _op.ge}
+            vals_ = [node.left.value] + [c.value for c in node.comparators]
+            return ast.copy_location(ast.Constant(value=all(fn_[type(o)](a, b) for o, a, b in zip(node.ops, vals_, vals_[1:]))), node)
         if len(node.ops) == 1 and isinstance(node.ops[0], (ast.Is, ast.IsNot)):
             l_, r_ = node.left, node.comparators[0]
             # identity of two literals None/True/False, or of a name with itself
